@@ -154,6 +154,7 @@ theorem fixCut_landmarks (ver : Str) (h61 : 61 ∉ ver) (n : Nat) (X : Bytes) :
   | none => rfl
   | some k =>
     simp only [e61, e1, eslice, eparse, ok_bind]
+    rw [if_neg (by omega : ¬ ((n : Int) < 0))]
     have hL : (((ver.length + 4 + 1 + (natDigits n).length + 1 : Nat) : Int) + (n : Int) + 7)
         = ((ver.length + (natDigits n).length + n + 13 : Nat) : Int) := by omega
     rw [hL]
